@@ -41,8 +41,79 @@ Theorem C07_prefix_nodup :
 Proof. exact prefix_nodup. Qed.
 
 
+(* ---- histories ---- *)
+From AV.Model Require Import Base Bytes Vec Ops Interp.
+From AV.Spec Require Import WorldSpec.
+From AV.Proofs Require Import WorldProofs OwnHistory.
+(** WHOLE HISTORIES: leaking is a step of the history fragment of AV.Props.C01 at every stage - a removal handle ([KForget] sink of [WorldSpec.sp_sink], also after it was written through or lazily cloned), a drain or splice iterator with the cursor anywhere ([FinForget]), and an ITEM it yielded ([KForget] in [WorldSpec.sp_walk_mv]) while the iterator itself is dropped, leaked or consumed further.  [C07_leaked_drain_in_histories] / [C07_leaked_splice_in_histories]: the byte-level machine does what the list specification says at any point of any history - elements in front of the range unchanged, nothing behind it visible unless the iterator was dropped; [C07_leak_accounting]: the only effect on ownership is that the leaked values ([OwnHistory.leak_of]) are never destroyed - nothing is duplicated or destroyed twice. *)
+Theorem C07_forgotten_handle_in_histories :
+  forall (c : cfg) (a : api) (sk : sink) (w : world) (st : astate) (vid : nat) 
+           (av : avec) (k : tkind) (i : nat) (vv : vec) (h : temp) (r : sres),
+         cfg_wf c ->
+         WRep c w st ->
+         get_a vid st = Some av ->
+         temp_req k i (a_xs av) ->
+         get_vec vid w = Some vv ->
+         VI c vv av ->
+         temp_for c vv (a_xs av) k i h ->
+         ufuse (wuw w) = None ->
+         (forall d : nat, In d (sink_dsts sk) -> d <> vid -> adm_many c w d (sink_count sk d)) ->
+         sp_sink c st (unext (wuw w)) vid av k i sk = Some r ->
+         match
+           apply_sink c vid (known_of a) h sk (put_vec vid (Some (with_len (N.of_nat i) vv)) (wuw w) w)
+         with
+         | Ok rets w2 =>
+             s_out r = 0 /\
+             s_pk r = 0 /\ s_ret r = rets /\ step_ok c w w2 (s_st r) (s_evs r) (s_nx r - unext (wuw w))
+         | Panic p w2 =>
+             s_out r = 2 /\
+             s_pk r = panic_code p /\
+             s_ret r = [] /\ step_ok c w w2 (s_st r) (s_evs r) (s_nx r - unext (wuw w))
+         | Fault _ => False
+         end.
+Proof. exact sink_spec. Qed.
+
+Theorem C07_leaked_drain_in_histories :
+  forall (c : cfg) (w : world) (st : astate) (a : api) (vid : nat) (sb eb : bound)
+           (pat : list (bool * sink)) (f : fin) (r : sres),
+         cfg_wf c ->
+         WRep c w st ->
+         ufuse (wuw w) = None ->
+         sp_drain_mv c st (unext (wuw w)) vid sb eb pat f = Some r ->
+         adm_pat c w vid pat -> res_matches c w (exec c (ODrain a vid sb eb pat f) w) r.
+Proof. exact exec_drain_mv. Qed.
+
+Theorem C07_leaked_splice_in_histories :
+  forall (c : cfg) (w : world) (st : astate) (a : api) (vid : nat) (sb eb : bound)
+           (pat : list (bool * sink)) (f : fin) (rk : rkind) (n : N) (wrong_at : option N) 
+           (claimed : N) (r : sres),
+         cfg_wf c ->
+         WRep c w st ->
+         ufuse (wuw w) = None ->
+         sp_splice_mv c st (unext (wuw w)) vid sb eb pat f rk n wrong_at claimed = Some r ->
+         adm_splice c w vid sb eb claimed ->
+         adm_pat c w vid pat -> res_matches c w (exec c (OSplice a vid sb eb pat f rk n wrong_at claimed) w) r.
+Proof. exact exec_splice_mv. Qed.
+
+(** after every step: created = visible + destroyed + leaked, as multisets - with [leak_of] saying exactly which values a forgotten handle, iterator or item leaks *)
+Theorem C07_leak_accounting :
+  forall c : cfg,
+         c_dg c = true ->
+         forall (st : astate) (nx : N) (o : op) (r : sres) (D L : list N),
+         1 <= nx ->
+         spec_step c st nx o = Some r ->
+         Permutation.Permutation (created c nx) (vis st ++ D ++ L) ->
+         Permutation.Permutation (created c (s_nx r))
+           (vis (s_st r) ++ (D ++ drops (s_evs r)) ++ L ++ leak_of c st nx o).
+Proof. exact step_own. Qed.
+
+(* ---- end histories ---- *)
 Print Assumptions C07_handle_new.
 Print Assumptions C07_handle_alive.
 Print Assumptions C07_range_new.
 Print Assumptions C07_range_alive.
 Print Assumptions C07_prefix_nodup.
+Print Assumptions C07_forgotten_handle_in_histories.
+Print Assumptions C07_leaked_drain_in_histories.
+Print Assumptions C07_leaked_splice_in_histories.
+Print Assumptions C07_leak_accounting.
